@@ -2,5 +2,6 @@ INIT Init
 NEXT Next
 CONSTANTS Level = 2
           Full = TRUE
+          Lanes = 32
 INVARIANT SpecSane
 CHECK_DEADLOCK FALSE
